@@ -298,7 +298,7 @@ def ob_gfffile(tier):
     from vf.sx.core import cur
     from vf.sx.ob import Case
     k = 2 if tier == "quick" else 3
-    IDX = range(-4, 5) if tier == "quick" else range(-5, 6)
+    IDX = range(-4, 5) if tier == "quick" else range(-3, 4)
     cases = []
     for first in range(5):
         ks = [z3.Int(f"k{i}") for i in range(k)]
@@ -306,11 +306,11 @@ def ob_gfffile(tier):
         no = [z3.Int(f"n{i}") for i in range(k)]
         base = [ks[0] == first]
         for a, b, c in zip(ks, ix, no):
-            base += [a >= 0, a <= 4, b >= IDX[0], b <= IDX[-1], c >= 0, c < 4, z3.Implies(a >= 3, b == 0)]
+            base += [a >= 0, a <= 4, b >= IDX[0], b <= IDX[-1], c >= 0, c < (4 if tier == "quick" else 2), z3.Implies(a >= 3, b == 0)]
 
         def run(ks=ks, ix=ix, no=no):
             ex = cur()
-            ops = [(ex.choose(a, range(5)), ex.choose(b, IDX), ex.choose(c, range(4))) for a, b, c in zip(ks, ix, no)]
+            ops = [(ex.choose(a, range(5)), ex.choose(b, IDX), ex.choose(c, range(4 if tier == "quick" else 2))) for a, b, c in zip(ks, ix, no)]
             return gfffile_seq(ops) is None
 
         def rep(w):
